@@ -186,13 +186,15 @@ def overridden_reachable(chain, entry):
     k = visible_def(chain, entry, top)
     if any(lv['ignores'] for lv in chain[k + 1:]):
         return True      # a more derived level adds ignore patterns the inherited entry does not see
-    seen, todo = set(), [entry]
+    # (name, level the name is looked up from): plain references are late-bound (looked up from the
+    # top), `super.X` inside a definition at level j is looked up from level j - 1
+    seen, todo = set(), [(entry, top)]
     while todo:
-        n = todo.pop()
-        if n in seen:
+        n, upto = todo.pop()
+        if (n, upto) in seen:
             continue
-        seen.add(n)
-        kk = visible_def(chain, n, top)
+        seen.add((n, upto))
+        kk = visible_def(chain, n, upto)
         if kk is None:
             continue
         if kk > k:
@@ -201,9 +203,11 @@ def overridden_reachable(chain, entry):
         for e in peg.rule_exprs(r):
             for x in peg.walk(e):
                 if x[0] in ('ref', 'call'):
-                    nm = x[1][6:] if x[1].startswith('super.') else x[1]
-                    if nm in ORDER:
-                        todo.append(nm)
+                    if x[1].startswith('super.'):
+                        if x[1][6:] in ORDER:
+                            todo.append((x[1][6:], kk - 1))
+                    elif x[1] in ORDER:
+                        todo.append((x[1], top))
     return False
 
 
